@@ -115,7 +115,19 @@ def matrix():
     return '\n'.join(out)
 
 
-GEN = {'fixes': fixes, 'open_findings': open_findings, 'per_property': per_property, 'functions': functions, 'matrix': matrix}
+def explanations():
+    out = []
+    for i in range(1, 21):
+        pid = f'C{i:02d}'
+        ev = load(f'evidence/{pid}.json')
+        if not ev:
+            continue
+        exp = (ev['coverage'].get('explanation') or '').strip()
+        out.append(f'* **{pid}** ({ev["level"]}): {exp}')
+    return '\n'.join(out)
+
+
+GEN = {'explanations': explanations, 'fixes': fixes, 'open_findings': open_findings, 'per_property': per_property, 'functions': functions, 'matrix': matrix}
 
 
 def main():
